@@ -205,9 +205,9 @@ CHECKS = {
        "receiver state (v3.1.1, and v5.0 with no topic alias in play and the packets within the negotiated limits; automatic responses, intact link): one QoS 1 exchange and one QoS 2 exchange complete - PUBLISH requested, "
        "notified exactly once, every acknowledgement requested by one side is accepted by the other, the identifier is released at the end "
        "and nothing of the exchange stays behind (v5.0: the Receive Maximum slot is given back), no call panics (C01_pair_qos1_completes, "
-       "C01_pair_qos2_completes, ..._v5), tied to step by C01_send_call_is_send_publish / C01_recv_call_is_deliver (..._v5); and ANY NUMBER of v3.1.1 QoS 1/2 messages in sequence with "
-       "identifier reuse are delivered exactly once each, in order, with no failure of any kind, by induction on a pair invariant "
-       "(C01_pair_sequence_exactly_once, about the executable run run_seq). A pair invariant with a termination measure for arbitrarily many concurrent "
+       "C01_pair_qos2_completes, ..._v5), tied to step by C01_send_call_is_send_publish / C01_recv_call_is_deliver (..._v5); and ANY NUMBER of QoS 1/2 messages in sequence (v3.1.1; v5.0 with Receive Maximum and Maximum Packet Size negotiated) with "
+       "identifier reuse are delivered exactly once each, in order, with no failure of any kind and both Receive Maximum accounts back at "
+       "zero, by induction on a pair invariant (C01_pair_sequence_exactly_once, ..._v5, about the executable runs run_seq / run_seq5). A pair invariant with a termination measure for arbitrarily many concurrent "
        "exchanges in flight, delivery interleavings and loss points is NOT proved (C01_partial): that is the monitor's part.",
   ref="DESIGN.md §3 C01",
   note=CONN_NOTE + " C01 replays re-run the seeded scheduler of the case on the current implementation (no shrinking).",
@@ -220,7 +220,8 @@ CHECKS = {
        "the invariant 'counter = number of incomplete outbound exchanges of this connection incl. retransmitted ones' over all histories "
        "is decided by the monitor (ghost set of open exchanges from operations/events vs the implementation's counter and vacancy) and "
        "the correspondence; as a statement about ALL histories it is FALSE of the faithful model and of the code, and its refutation is "
-       "proved (C12_count_exact_refuted_*: three histories of a fresh object inside the application contract after which the vacancy is the "
+       "proved, and so is the clause 'returns to M when all exchanges complete' for every sequential run of two v5.0 endpoints "
+       "(C12_vacancy_returns_after_sequence) (C12_count_exact_refuted_*: three histories of a fresh object inside the application contract after which the vacancy is the "
        "full maximum while a stored, accepted PUBLISH of this connection is still awaited) - these are the known findings F-12b, F-12c, "
        "F-12d, reported as KNOWN-FINDING; any other discrepancy is a violation.",
   ref="DESIGN.md §3 C12, §4 F-12b, §10.4 F-12c F-12d",
